@@ -631,5 +631,26 @@ func (e *Enc) selectInstr(fr *Frame, st *State, x *ssa.Select) {
 		e.setVal(fr, x, res)
 		return
 	}
+	// non-blocking single receive: select { case <-ch: default: } (stop channels): either
+	// branch may be taken
+	if !x.Blocking && len(x.States) == 1 && x.States[0].Dir == types.RecvOnly {
+		ch := e.val(fr, st, x.States[0].Chan).term()
+		idx := e.s.Fresh("selidx", "Int")
+		e.assume(st, fmt.Sprintf("(or (= %s 0) (= %s (- 1)))", idx, idx))
+		lenA := e.comp(st, "CH:len", "(Array Int Int)")
+		nl := e.s.Fresh("chlen", "Int")
+		e.assume(st, fmt.Sprintf("(and (<= 0 %s) (<= %s (select %s %s)))", nl, nl, lenA, ch))
+		e.setComp(st, "CH:len", "(Array Int Int)", sto(lenA, ch, nl))
+		res := &Val{T: x.Type(), K: KTuple, F: []*Val{intVal(types.Typ[types.Int], idx), boolVal(e.s.Fresh("recvok", "Bool"))}}
+		if tu, ok := x.Type().(*types.Tuple); ok {
+			for i := 2; i < tu.Len(); i++ {
+				v := e.fresh(tu.At(i).Type(), "recv")
+				e.assume(st, e.wf(v, st.alloc))
+				res.F = append(res.F, v)
+			}
+		}
+		e.setVal(fr, x, res)
+		return
+	}
 	e.unsupported("select at %s", e.w.posOf(x.Pos()))
 }
